@@ -258,6 +258,13 @@ def cvec(v):
     return clist(v, cq)
 
 
+def cnl(v):
+    return clist(v, lambda k: '%d%%nat' % k)
+
+
+NONE = '(@None (list nat))'
+
+
 def cmat(A):
     return clist([cvec(r) for r in A])
 
@@ -314,14 +321,14 @@ def coq_gs_case(c, impl_x, perturb=False):
             # CSC / COO are converted by scipy.sparse.csr_matrix(A): the model gets the canonical CSR
             # of the denoted matrix (the conversion itself is scipy's, not pyiga's)
             ip, ind, dat = canonical_csr(c['_A'])
-        M = '(Sparse (mk_csr %s %s %s) %d)' % (clist(ip), clist(ind), cvec(dat), n)
-    idx = 'None' if c['indices'] is None else '(Some %s)' % clist(c['indices'])
+        M = '(Sparse (mk_csr %s %s %s) %d%%nat)' % (cnl(ip), cnl(ind), cvec(dat), n)
+    idx = NONE if c['indices'] is None else '(Some %s)' % cnl(c['indices'])
     sw = {'forward': 'Forward', 'backward': 'Backward', 'symmetric': 'Symmetric'}[c['sweep']]
     xm, E = gs_oracle(c)
     impl = list(impl_x)
     if perturb:
         impl[0] = impl[0] + 2 * E[0] + Fr(1, 2 ** 40)
-    return '(%s, %s, %s, %d, %s, %s, %s, %s, %s)' % (M, cvec(c['_x']), cvec(c['_b']), c['iterations'], idx, sw,
+    return '(%s, %s, %s, %d%%nat, %s, %s, %s, %s, %s)' % (M, cvec(c['_x']), cvec(c['_b']), c['iterations'], idx, sw,
                                                        cvec(xm), cvec(impl), cvec(E))
 
 
@@ -423,12 +430,12 @@ Fixpoint bad (k : nat) (cs : list (dense * vec * vec * vec * option (list nat) *
 def coq_it_case(c, res, perturb=False):
     n = c['_n']
     x0 = c['_x0'] if c['_x0'] is not None else [Fr(0)] * n
-    act = 'None' if c['active'] is None else '(Some %s)' % clist(c['active'])
+    act = NONE if c['active'] is None else '(Some %s)' % cnl(c['active'])
     k = res['iters']
     if perturb:
         k = 'inf' if k != 'inf' else 1
-    ik = 'Inf' if k == 'inf' else '(Finite %d)' % k
-    return '(%s, %s, %s, %s, %s, %s, %d, %s, %s)' % (cmat(c['_A']), cvec(c['_W']), cvec(c['_f']), cvec(x0), act,
+    ik = 'Inf' if k == 'inf' else '(Finite %d%%nat)' % k
+    return '(%s, %s, %s, %s, %s, %s, %d%%nat, %s, %s)' % (cmat(c['_A']), cvec(c['_W']), cvec(c['_f']), cvec(x0), act,
                                                        cq(c['_tol']), c['maxiter'], cvec([fh(h) for h in res['x']]), ik)
 
 
@@ -812,8 +819,8 @@ def coq_mg_cases(hs_cases, hs_results, limit_n, max_cases):
                 impl = [fh(h) for h in run['from_rand' if which == 'x_rand' else 'from_exact']]
                 scale = max([1.0] + [abs(float(v)) for v in x] + [abs(float(v)) for v in impl] + [abs(fl(h)) for h in mg['xs']])
                 bound = Fr(10 * L * (2 * run['smooth_steps'] + 2) * n * u * kappa * scale)
-                texts.append('(%s, %s, %s, %s, %s, %d, %s, %s, %s)' % (
-                    cmat(A), cvec(f), clist([cmat(P) for P in Ps]), clist([clist(I) for I in run['lv_inds']]),
+                texts.append('(%s, %s, %s, %s, %s, %d%%nat, %s, %s, %s)' % (
+                    cmat(A), cvec(f), clist([cmat(P) for P in Ps]), clist([cnl(I) for I in run['lv_inds']]),
                     SMC[run['smoother']], run['smooth_steps'], cvec(x), cvec(impl), cq(bound)))
                 meta.append({'hs': {k: v for k, v in c.items() if k != 'mg'}, 'mg_seed': c['mg']['seed'], 'matrix': c['mg']['matrix'],
                              'strategy': run['strategy'], 'smoother': run['smoother'], 'smooth_steps': run['smooth_steps'],
